@@ -31,8 +31,12 @@ def read_locals_driven(ctx, pid: str, comp, cls: str) -> int:
             if o is None:
                 return False
             c = o.ctor
-            if c[0] == "lc" and ex.obj(c[2]) is not None:
-                c = ex.obj(c[2]).ctor
+            # lists (of lists) of signals
+            for _ in range(3):
+                if c[0] == "lc" and ex.obj(c[2]) is not None:
+                    c = ex.obj(c[2]).ctor
+                elif c[0] == "lc" and c[2][0] == "lc":
+                    c = c[2]
             return c[0] == "call" and c[1] in (("n", "Signal"), ("a", ("n", "Signal"), "like"))
 
         written = set()
